@@ -409,6 +409,13 @@ func c20r4(c *core.Ctx) {
 				case "SourceCode":
 					if ce, ok := ast.Unparen(kv.Value).(*ast.CallExpr); ok && len(ce.Args) == 1 {
 						toks[key] = exprStr(ce.Args[0])
+					} else if se, ok := ast.Unparen(kv.Value).(*ast.SelectorExpr); ok && fieldOf(info, se) != nil {
+						// taken over from another diagnostic, like its positions
+						toks[key] = exprStr(se.X)
+					} else if _, isLit := ast.Unparen(kv.Value).(*ast.BasicLit); !isLit {
+						// a line that is looked up from something else than a token (the
+						// lexer's current line): not the line of the token that is reported
+						toks[key] = "(" + exprStr(kv.Value) + ")"
 					}
 				}
 			}
